@@ -166,3 +166,21 @@ uselistorder_bb @f, %next, { 1, 0 }
 define internal i8* @resolver() {
   ret i8* null
 }
+;;; ATOM module/unnamed-globals-among-numbered-defs
+%0 = type { i32, %1* }
+%1 = type { %0 }
+@0 = global i32 1, !k !7
+@1 = private constant %0 { i32 5, %1* null }
+@named = global i32* @0
+define i32 @2() #5 {
+  %1 = load i32, i32* @0
+  ret i32 %1
+}
+@3 = alias i32, i32* @a1
+@a1 = global i32 3
+declare void @4() #9
+attributes #5 = { nounwind }
+attributes #9 = { readnone "k"="v" }
+!named = !{!7, !12}
+!7 = !{i32 42, !12}
+!12 = distinct !{!"x"}
